@@ -21,6 +21,15 @@ CHECKS = {
     "C05": ("exploration", "3.C05",
             "In every state reached by the histories (deleted prefixes/middles/suffixes, empty meshes): the six entity iterators via begin/end, iter()+valid(), range-for and backward stepping yield the live handles ascending / descending; all 26 circulators plus boundary_halfface_halffaces: forward sequence equals the expected incident list (brute force for bottom-up ones, stored definition order for top-down ones) repeated max_laps (1..3) times, no duplicates where the relation is a set, begin/end loop agrees, end == begin advanced past the last lap, --(++it) == it at every position incl. lap boundaries, empty centre => invalid circulator and empty range.",
             "Each centre is checked for one lap count (rotating 1,2,3) and every fifth centre for all three; behaviour of -- from begin and of ++/-- on an invalid iterator is not demanded; tet/hex circulators are covered by C15/C16."),
+    "C06": ("exploration", "3.C06",
+            "Checkpointer client inside the histories (poly/tet/hex meshes after deletions+collection, swaps, open cells, duplicate edges, special positions incl. NaN/-0/denormals, width-boundary meshes 255/256/257 and in thorough 65535/65536/65537): persistent properties of all 30 OVMB codec types (and the ASCII typeName list) on all 7 entity kinds with non-trivial defaults plus the tracked int/bool/double/string/Vec3d properties. (1) write->read into same kernel, polyhedral and (when the content allows) tet/hex meshes with topology check on/off and bottom-up on/off: counts, definitions handle for handle, positions bit-exact, property set, values, defaults; ASCII: second round trip is a fixed point; (2) independent decoder written from the kaitai description decodes the writer's bytes to the model; (3) three seeded legal re-encodings per image (chunks split into spans, wider handle/valence encodings, variable valence, non-zero handle offsets, float vertices when exact, DIRP after topology, optional unknown chunks) read to the same mesh; (4) topo_type()/vertex_dim()/isHexahedralMesh/isTetrahedralMesh agree with the model; (5) pending deletions: refused or logical content; restart-through-file adds loaded meshes to the population. Only benign transfer behaviour (chunked reads, writer buffer knob).",
+            "ASCII values are restricted to what the text format denotes with 6 significant digits; tet/hex files are assumed to require fixed valences (the reader's documented rule); user-registered codecs and files > ~2 MiB are out of reach."),
+    "C07": ("exploration", "3.C07",
+            "Fault-injecting checkpointer: images written from history meshes, then 1-3 seeded faults per load: bit flips, byte replacement, insertion, deletion, block duplication, truncation, splices, arbitrary bytes, located header/sub-header fields set to boundary values (field locations from the independent decoder), chunks dropped/duplicated/swapped, payloads shortened with consistent framing (reaches the codecs behind the framing checks), DIRP defaults shortened, TOPO handle bytes permuted; ASCII: lines/tokens dropped, repeated, replaced by non-numeric / huge / negative text; allocator faults (per-request cap 48 MiB, fail the k-th allocation). Loaded into poly/tet/hex meshes with both topology_check settings. Oracles: ASan+UBSan with container annotations, step-clock liveness (budget 400k + 6000 steps/byte, overrun only counts without progress in the trailing quarter), outcome in {error, false, bad_alloc/length_error/std exception}, and on success: every stored handle in range, every property sized to its entity count, the incidence battery runs on the result.",
+            "A clean batch is evidence over the sampled fault space only; faults needing more than three coordinated field edits are out of reach."),
+    "C18": ("fault_enumeration", "3.C18",
+            "Per-image sweeps over OVMB images written from history meshes: every truncation length (as short image and as 'size reported, EOF early'), every located header / chunk-header / sub-header field x ~20 boundary values, every chunk dropped / duplicated / swapped with its successor, input stream failing from every byte position (plus seek failure), output stream failing from every byte position. Thorough: complete per image (stride 1); quick: strided (about 48 positions per image plus all chunk boundaries). Oracle three-valued through the independent decoder: INVALID-for-a-listed-reason (prefix, magic, header version, reserved/padding bytes, chunk length, span continuity and range, encoding enums vs. valence mode, handle range, EOF chunk missing/duplicated/not last, second DIRP, declared counts not delivered) => result must not be Ok; VALID => Ok with the decoder's mesh (only demanded with topology_check off); UNDECIDED (file_version, flags, compression, unknown chunk types, payload bytes) => safety only. Stream failures on either side must never yield Ok.",
+            "Path overloads (ovmb_write(path): failure only at close) are not yet behind the syscall seam; complete only per image, seeded exploration over images."),
     "C08": ("exploration", "3.C08",
             "On every live edge and face of every reached state: opposite halfedge swaps endpoints, halfface(opposite) is the reversed list of opposite halfedges, opposite twice is the identity, all handle conversions (static and member) are mutually inverse on the handles of the state, on boundary indices and on 16 random indices < 2^30 per state; every face is a closed loop; vertex/halfedge/edge circulators of the two sides enumerate the same cycle in opposite directions; next/prev_halfedge_in_halfface are inverse steps.",
             "The clause 'for every index in [0,2^30) exhaustively' is enumeration of a pure function and is outside this technique: only sampled indices are checked."),
@@ -53,9 +62,6 @@ CHECKS = {
             "Incidence caches are checked by C01's battery in the C01/C12 checks, not here."),
 }
 NOT_YET = {
-    "C06": "check not built yet in this round (planned: STOR world round trips + independent OVMB codec)",
-    "C07": "check not built yet in this round (planned: STOR world fault injection into stored bytes)",
-    "C18": "check not built yet in this round (planned: STOR fault enumeration)",
     "C20": "check not built yet in this round (planned: FROZEN world)",
 }
 NA = {"C19": "pure functions of numeric input (vector algebra, geometric formulas): no state, schedule, clock, I/O fault or interleaving exists for a simulator to control; input generation under another name would not be this technique"}
@@ -101,6 +107,6 @@ def main():
     print("MANIFEST.json:", len(m["checks"]), "checks,", len(m["not_applicable"]), "not applicable")
 
 
-TECHS = {}
+TECHS = {"C18": "deterministic simulation with fault injection: per-image fault enumeration (truncation, field boundary values, chunk reorder, stream failure at every position) classified by an independent decoder", "C07": "deterministic simulation with fault injection: seeded stored-byte, token and allocator faults into the readers under sanitizers and a step clock", "C06": "deterministic simulation: checkpoint/restart client over simulated storage with an independent codec as oracle and re-encoder"}
 if __name__ == "__main__":
     main()
